@@ -6,6 +6,7 @@ import (
 	"strings"
 	"sync"
 
+	"github.com/herohde/morlock/cmd/bernstein/bernstein"
 	"github.com/herohde/morlock/pkg/board"
 	"github.com/herohde/morlock/pkg/board/fen"
 )
@@ -244,6 +245,36 @@ func monitor(sc raceScript, trace string) string {
 	return "ok"
 }
 
+// squeezedAllUnsafe looks for a well-formed position, side to move not in check, in which every legal move is "unsafe" in
+// BERNSTEIN's sense (the piece moved can be taken with gain).
+func squeezedAllUnsafe(r *rand.Rand) (string, bool) {
+	for tries := 0; tries < 60000; tries++ {
+		f, ok := synthetic(r)
+		if !ok {
+			continue
+		}
+		p, t, _, _, _ := fen.Decode(f)
+		if p.IsChecked(t) {
+			continue
+		}
+		legal := p.LegalMoves(t)
+		if len(legal) == 0 || len(legal) > 4 {
+			continue
+		}
+		all := true
+		for _, m := range legal {
+			if bernstein.IsMoveSafe(p, t, m) {
+				all = false
+				break
+			}
+		}
+		if all {
+			return f, true
+		}
+	}
+	return "", false
+}
+
 func raceScripts(r *rand.Rand, n int) []raceScript {
 	kinds := []string{"plain", "plain", "morlock", "turochamp", "sargon", "bernstein"}
 	posA := []string{"position startpos", "position startpos moves d2d4 d7d5", "position fen r3k2r/p1ppqpb1/bn2pnp1/3PN3/1p2P3/2N2Q1p/PPPBBPPP/R3K2R w KQkq - 0 1"}
@@ -294,11 +325,25 @@ func raceScripts(r *rand.Rand, n int) []raceScript {
 			ret = append(ret, raceScript{k, []string{"> " + []string{"position startpos", posA[a], posB[b]}[r.Intn(3)], first, "wait-bestmove 20000", "quiet 200", "> go depth 1", "wait-bestmove 20000"}, "bundled engines"})
 		case 10: // bundled engines in squeezed positions (one to three legal moves, often all of them bad): still a legal move
 			k := kinds[2+r.Intn(4)]
+			if i%2 == 0 {
+				// ... and every legal move hangs the piece moved (BERNSTEIN ranks such moves last; it must still play one)
+				if f, ok := squeezedAllUnsafe(r); ok {
+					ret = append(ret, raceScript{"bernstein", []string{"> position fen " + f, "> go", "wait-bestmove 20000", "quiet 100"}, "bundled engines squeezed"})
+				}
+				continue
+			}
 			if f, ok := squeezed(r, 1+r.Intn(3)); ok {
 				ret = append(ret, raceScript{k, []string{"> position fen " + f, "> go depth 2", "wait-bestmove 20000", "quiet 100"}, "bundled engines squeezed"})
 			}
 		}
 	}
+	// always: numeric arguments at the edges (the parser accepts any integer; whatever it means to the time control, the
+	// driver must answer and stay alive)
+	ret = append(ret,
+		raceScript{"plain", []string{"> position startpos", "> go wtime 1000 btime 1000 movestogo -1", "wait-bestmove 9000", "quiet 100", "sync",
+			"> go movestogo -1 movetime 150", "wait-bestmove 9000", "quiet 100", "sync", "alive"}, "numeric edges"},
+		raceScript{"plain", []string{"> position startpos moves e2e4", "> go depth -1 movetime 120", "wait-bestmove 9000", "quiet 100", "> go movetime -5 depth 1", "wait-bestmove 9000",
+			"quiet 100", "> go wtime -1000 btime -1000 movestogo -7", "wait-bestmove 9000", "quiet 100", "sync", "alive"}, "numeric edges"})
 	return ret
 }
 
